@@ -18,14 +18,14 @@ ID = "C05"
 CASES = {"quick": 3000, "thorough": 30000}
 FLOOR = {"quick": 2200, "thorough": 22000}
 FLOOR_COUNTERS = {
-    "quick": {"rejected_calls_in_the_history": 1000, "numpy_scalar_parameters": 500, "caller_buffers_overwritten_after_fit": 800, "fits_through_fit_transform": 500, "configured_not_by_constructor": 1500, "non_default_containers": 1000, "plumbing_pairs": 1000, "heldout_scores_judged": 900, "pcovr_equivalences": 90, "kpca_limits": 300, "heldout_size_gt_n": 150, "heldout_size_1": 100, "estimators_with_a_past": 300},
-    "thorough": {"rejected_calls_in_the_history": 12000, "numpy_scalar_parameters": 6000, "caller_buffers_overwritten_after_fit": 9000, "fits_through_fit_transform": 5000, "configured_not_by_constructor": 15000, "non_default_containers": 10000, "plumbing_pairs": 14000, "heldout_scores_judged": 12000, "pcovr_equivalences": 600, "kpca_limits": 4000, "heldout_size_gt_n": 2000, "heldout_size_1": 1500, "estimators_with_a_past": 3500},
+    "quick": {"least_squares_images_judged": 1800, "precomputed_regressions_from_the_raw_kernel": 180, "precomputed_regressions_without_weights": 120, "rejected_calls_in_the_history": 1000, "numpy_scalar_parameters": 500, "caller_buffers_overwritten_after_fit": 800, "fits_through_fit_transform": 500, "configured_not_by_constructor": 1500, "non_default_containers": 1000, "plumbing_pairs": 1000, "heldout_scores_judged": 900, "pcovr_equivalences": 90, "kpca_limits": 300, "heldout_size_gt_n": 150, "heldout_size_1": 100, "estimators_with_a_past": 300},
+    "thorough": {"least_squares_images_judged": 18000, "precomputed_regressions_from_the_raw_kernel": 1800, "precomputed_regressions_without_weights": 1200, "rejected_calls_in_the_history": 12000, "numpy_scalar_parameters": 6000, "caller_buffers_overwritten_after_fit": 9000, "fits_through_fit_transform": 5000, "configured_not_by_constructor": 15000, "non_default_containers": 10000, "plumbing_pairs": 14000, "heldout_scores_judged": 12000, "pcovr_equivalences": 600, "kpca_limits": 4000, "heldout_size_gt_n": 2000, "heldout_size_1": 1500, "estimators_with_a_past": 3500},
 }
 RULE = (
     "case = X, Y (1-D/2-D), kernel in {linear, rbf, poly, sigmoid(small gamma), cosine} with gamma/degree/coef0, center, "
-    "mixing, k, regressor in {None, KernelRidge unfitted, KernelRidge fitted, precomputed}, held-out set of size 1 / <n / =n "
+    "mixing, k, regressor in {None, KernelRidge unfitted, KernelRidge fitted, precomputed with consistent weights | without weights (raw targets) | with weights from the raw kernel}, held-out set of size 1 / <n / =n "
     "/ >n. Judged: named==precomputed kernel, center=True==manual KernelNormalizer, linear==sample-space PCovR+Ridge, "
-    "mixing=1==KernelPCA, shapes and score on the held-out set against the documented loss. non-trivial = held-out size != n "
+    "mixing=1==KernelPCA, shapes and score on the held-out set against the documented loss, training predictions == least-squares image of the fitted targets on the training projections. non-trivial = held-out size != n "
     "and a plumbing pair compared; distinct by data+config hash."
 )
 ASSUMPTIONS = [
@@ -71,7 +71,7 @@ def gen(rng, tier, index):
         "center": bool(rng.random() < 0.5),
         "mixing": float(gens.pick(rng, (0.1, 0.3, 0.5, 0.9, 1.0))),
         "k": int(rng.integers(1, min(n - 1, 5) + 1)),
-        "reg": gens.pick(rng, ("none", "krr", "krr", "krr_fitted", "precomputed", "precomputed_noW", "precomputed_rawW")),
+        "reg": gens.pick(rng, ("none", "krr", "krr", "krr", "krr_fitted", "krr_fitted", "precomputed", "precomputed_noW", "precomputed_rawW")),
         "alpha": float(10.0 ** rng.uniform(-3, 0)),
         "past": bool(rng.random() < 0.3),  # the estimator object was configured and fitted differently before
         "Xd": rng.normal(size=(int(rng.integers(5, hi)), f)),
